@@ -26,6 +26,8 @@ package cache
 //@ type item
 //@   immutable resp, storedTime, expirationTime
 //@   invariant self.resp != nil
+// the stored message is owned by the cache entry (C10: only copies are handed out), so facts about it are stable
+//@   invariant noOPT(self.resp.Extra) && okRRs(self.resp.Extra)
 
 //@ func min [C05]
 //@   ensures result == ite(a < b, a, b)
@@ -36,7 +38,7 @@ package cache
 //@ spec func lifetime(rc int, na int, mt int) int = ite(rc == 3, 30, ite(rc == 2, 5, ite(rc == 0, ite(na == 0, ite(mt < 300, mt, 300), mt), 0)))
 
 //@ func saveRespToCache [C05, C10]
-//@   requires r != nil && backend != nil && wfMsg(r)
+//@   requires r != nil && backend != nil && wfMsg(r) && okRRs(r.Extra)
 //@   modifies *
 //@   requires lazyCacheTtl <= 9223372036
 //@   ensures old(r.Truncated) ==> !result
@@ -53,8 +55,13 @@ package cache
 //@   ensures result && old(r.Rcode) == 0 && old(len(r.Answer)) > 0 && lazyCacheTtl > 0 ==> arg(cacheStore, 0, 3).ns == ret(timeNow, 0).ns + lazyCacheTtl * 1000000000
 
 //@ func getRespFromCache [C05, C10]
+//@   log getRespFromCache
 //@   requires backend != nil
-//@   modifies *
+//@   modifies comp(dns.RR_Header.Ttl)
+//@   ensures forall h *dns.RR_Header :: wasallocated(h) ==> h.Ttl == old(h.Ttl)
+//@   ensures result_0 != nil ==> fresh(result_0) && (len(result_0.Question) > 0 ==> fresh(result_0.Question.ref))
+//@   ensures result_1 ==> result_0 != nil
+//@   ensures result_0 != nil ==> noOPT(result_0.Extra) && okRRs(result_0.Extra)
 //@   ensures calls(cacheGet) == 1 && arg(cacheGet, 0, 0) == backend
 //@   ensures ret(cacheGet, 0, 0) == nil ==> result_0 == nil && !result_1 && calls(msgCopy) == 0
 //@   ensures ret(cacheGet, 0, 0) != nil ==> calls(timeNow) == 1
@@ -71,7 +78,7 @@ package cache
 //@ spec func noNil(s []dns.RR) bool = forall i int :: 0 <= i && i < len(s) ==> s[i] != nil
 //@ func copyNoOpt [C10, C15]
 //@   log copyNoOpt
-//@   requires m != nil ==> noNil(m.Answer) && noNil(m.Ns) && noNil(m.Extra)
+//@   requires m != nil ==> noNil(m.Answer) && noNil(m.Ns) && okRRs(m.Extra)
 //@   ensures (m == nil) == (result == nil)
 //@   ensures m != nil ==> fresh(result) && result.MsgHdr == m.MsgHdr && result.Compress == m.Compress
 //@   ensures m != nil ==> len(result.Question) == len(m.Question) && (len(m.Question) > 0 ==> fresh(result.Question.ref)) && (forall i int :: 0 <= i && i < len(m.Question) ==> result.Question[i] == m.Question[i])
@@ -79,6 +86,7 @@ package cache
 //@   ensures m != nil ==> len(result.Ns) == len(m.Ns) && (forall i int :: 0 <= i && i < len(m.Ns) ==> freshRec(result.Ns[i]) && recCopied(result.Ns[i], m.Ns[i]))
 //@   ensures m != nil ==> len(result.Extra) <= len(m.Extra) && (forall i int :: 0 <= i && i < len(result.Extra) ==> freshRec(result.Extra[i]) && hdrOf(result.Extra[i]).Rrtype != 41)
 //@   ensures m != nil ==> fresh(result.Answer.ref) && fresh(result.Ns.ref) && fresh(result.Extra.ref)
+//@   ensures m != nil ==> noOPT(result.Extra) && okRRs(result.Extra)
 //@   loop 0:
 //@     invariant 0 <= it0 && it0 <= len(m.Extra) && len(m.Extra) - it0 <= lenExtra && lenExtra <= len(m.Extra)
 //@   loop 1:
@@ -98,4 +106,46 @@ package cache
 //@     invariant 0 <= it3 && it3 <= len(m.Extra) && len(m2.Extra) <= it3 && (m2.Extra.ref == s.ref ==> m2.Extra.off == len(m.Answer) + len(m.Ns))
 //@     invariant forall i int :: 0 <= i && i < len(m.Answer) ==> freshRec(m2.Answer[i]) && recCopied(m2.Answer[i], m.Answer[i])
 //@     invariant forall i int :: 0 <= i && i < len(m.Ns) ==> freshRec(m2.Ns[i]) && recCopied(m2.Ns[i], m.Ns[i])
-//@     invariant forall i int :: 0 <= i && i < len(m2.Extra) ==> freshRec(m2.Extra[i]) && hdrOf(m2.Extra[i]).Rrtype != 41
+//@     invariant forall i int :: 0 <= i && i < len(m2.Extra) ==> freshRec(m2.Extra[i]) && hdrOf(m2.Extra[i]).Rrtype != 41 && !isOPT(m2.Extra[i]) && m2.Extra[i].val != 0
+
+// ---------------------------------------------------------------------------
+// cache.Exec (C03, C04, C05, C10): one key per query, used for lookup and store; a hit is the
+// private copy handed out by getRespFromCache with the query's ID; only a response that is not
+// the cached one is stored; non-queries bypass the cache.
+//@ import sequence "github.com/IrineSistiana/mosdns/v5/plugin/executable/sequence"
+//@ type Cache
+//@   immutable args, backend, logger, queryTotal, hitTotal, lazyHitTotal
+//@ type Args
+//@   immutable LazyCacheTTL
+
+// doLazyUpdate (C05): the background refresh is started only through the single-flight group,
+// keyed by the message key, on a copy of the query context; nothing the caller can see changes.
+//@ func (c *Cache) doLazyUpdate [C05]
+//@   log doLazyUpdate
+//@   requires c != nil && qCtx != nil && qCtx.query != nil
+//@   ensures calls(ctxCopy) == 1 && arg(ctxCopy, 0, 0) == qCtx && calls(sfDoChan) == 1 && arg(sfDoChan, 0, 1) == msgKey && arg(sfDoChan, 0, 0) == &c.lazyUpdateSF
+
+// the refresh itself: runs the rest of the chain once on the copy, stores the answer under the same
+// key, and releases the single-flight key only when all of that is over (deferred Forget).
+//@ func (c *Cache) doLazyUpdate$1 [C05]
+//@   requires c != nil && qCtxCopy != nil && qCtxCopy.query != nil && c.logger != nil && c.backend != nil && c.args != nil && c.args.LazyCacheTTL <= 9223372036
+//@   modifies *
+//@   ensures calls(ExecNext) == 1 && arg(ExecNext, 0, 2) == qCtxCopy && calls(sfForget) == 1 && arg(sfForget, 0, 1) == msgKey && callpos(ExecNext, 0) < callpos(sfForget, 0)
+//@   ensures calls(saveRespToCache) <= 1 && (calls(saveRespToCache) == 1 ==> arg(saveRespToCache, 0, 0) == msgKey && arg(saveRespToCache, 0, 1) == aftercall(ExecNext, 0, qCtxCopy.resp) && callpos(saveRespToCache, 0) < callpos(sfForget, 0))
+//@   ensures aftercall(ExecNext, 0, qCtxCopy.resp != nil) ==> calls(saveRespToCache) == 1
+
+//@ func (c *Cache) Exec [C03, C04, C05, C10]
+//@   requires c != nil && qCtx != nil && qCtx.query != nil && c.backend != nil && c.args != nil && c.queryTotal != nil && c.hitTotal != nil && c.lazyHitTotal != nil && c.args.LazyCacheTTL <= 9223372036
+//@   modifies *
+//@   ensures calls(getMsgKey) == 1 && arg(getMsgKey, 0, 0) == old(qCtx.query) && calls(ExecNext) == 1 && result == ret(ExecNext, 0)
+//@   ensures len(ret(getMsgKey, 0)) == 0 ==> calls(getRespFromCache) == 0 && calls(saveRespToCache) == 0 && calls(SetResponse) == 0
+//@   ensures len(ret(getMsgKey, 0)) > 0 ==> calls(getRespFromCache) == 1 && arg(getRespFromCache, 0, 0) == ret(getMsgKey, 0) && arg(getRespFromCache, 0, 1) == c.backend && arg(getRespFromCache, 0, 2) == (c.args.LazyCacheTTL > 0) && arg(getRespFromCache, 0, 3) == 5
+//@   ensures len(ret(getMsgKey, 0)) > 0 && ret(getRespFromCache, 0, 0) != nil ==> calls(SetResponse) == 1 && arg(SetResponse, 0, 0) == qCtx && arg(SetResponse, 0, 1) == ret(getRespFromCache, 0, 0) && atcall(SetResponse, 0, arg(SetResponse, 0, 1).Id == old(qCtx.query.Id)) && callpos(SetResponse, 0) < callpos(ExecNext, 0)
+//@   ensures len(ret(getMsgKey, 0)) > 0 && ret(getRespFromCache, 0, 0) == nil ==> calls(SetResponse) == 0
+//@   ensures len(ret(getMsgKey, 0)) > 0 ==> calls(doLazyUpdate) == ite(ret(getRespFromCache, 0, 1), 1, 0)
+//@   ensures calls(doLazyUpdate) == 1 ==> arg(doLazyUpdate, 0, 1) == ret(getMsgKey, 0) && arg(doLazyUpdate, 0, 2) == qCtx
+//@   ensures calls(saveRespToCache) <= 1
+//@   ensures calls(saveRespToCache) == 1 ==> arg(saveRespToCache, 0, 0) == ret(getMsgKey, 0) && arg(saveRespToCache, 0, 2) == c.backend && arg(saveRespToCache, 0, 1) == aftercall(ExecNext, 0, qCtx.resp) && arg(saveRespToCache, 0, 1) != ret(getRespFromCache, 0, 0) && callpos(ExecNext, 0) < callpos(saveRespToCache, 0)
+//@   ensures len(ret(getMsgKey, 0)) > 0 && aftercall(ExecNext, 0, qCtx.resp != nil) && aftercall(ExecNext, 0, qCtx.resp) != ret(getRespFromCache, 0, 0) ==> calls(saveRespToCache) == 1
+//@   ensures[C03] qCtx.query == old(qCtx.query) && qCtx.query.Id == old(qCtx.query.Id) && len(qCtx.query.Question) == old(len(qCtx.query.Question)) && (old(len(qCtx.query.Question)) == 1 ==> qCtx.query.Question[0] == old(qCtx.query.Question[0]))
+//@   ensures[C03] qCtx.resp != nil ==> respOK(qCtx.query, qCtx.resp)
